@@ -116,8 +116,8 @@ def check_no_raw_queue_calls(c: Ctx) -> int:
     return n
 
 
-@ob('C02.3', 'SHAPE', 'the run loop awaits step() in place, step awaits process_event to completion, and the non-parallel branch awaits each handler in '
-    'iteration order (no task spawning on the serial path)')
+@ob('C02.3', 'SHAPE', 'the run loop awaits step() in place, step awaits process_event to completion, and without parallel_handlers each handler has finished before the next one starts: '
+    'execute_handler is awaited in place in iteration order, or each handler task is awaited to completion (plain await, which forwards cancellation) before the next one is created')
 def c02_3(c: Ctx) -> None:
     rl = c.unit(SVC, 'EventBus._run_loop')
     st = c.unit(SVC, 'EventBus.step')
